@@ -414,8 +414,23 @@ class NumEval:
             return self.binop('*', t[2][0], t[2][1], d)
         if c in ('torch.add',):
             return self.binop('+', t[2][0], t[2][1], d)
-        if c in ('torch.div',):
+        if c in ('torch.div', 'torch.divide'):
+            if dict(t[3]).get('rounding_mode') == ('const', 'floor'):
+                return self.binop('//', t[2][0], t[2][1], d)
             return self.binop('/', t[2][0], t[2][1], d)
+        if c in ('torch.clamp', 'torch.clip', 'torch.relu', 'torch.nn.functional.relu'):
+            # clamp(x, min=a, max=b) = min(max(x, a), b); relu(x) = max(x, 0)
+            kw = dict(t[3])
+            lo = kw.get('min', t[2][1] if len(t[2]) > 1 else None)
+            hi = kw.get('max', t[2][2] if len(t[2]) > 2 else None)
+            if c.endswith('relu'):
+                lo, hi = ('const', 0), None
+            r = t[2][0]
+            if lo is not None and lo != ('const', None):
+                r = ('call', ('global', 'torch.maximum'), (r, lo), ())
+            if hi is not None and hi != ('const', None):
+                r = ('call', ('global', 'torch.minimum'), (r, hi), ())
+            return self.ev(r, d)
         if c in ('builtins.max', 'torch.max', 'torch.maximum', 'builtins.min', 'torch.min',
                  'torch.minimum'):
             vals = [self.ev(x, d) for x in t[2]]
